@@ -131,10 +131,12 @@ def apply_fault(root, step, FST, scratch):
         if op == 'get_cut':
             return parent.get(bi, field=field, cut=True, **opts)
         if op == 'setitem':
-            getattr(parent, field)[bi] = code
+            with FST.options(**opts):
+                getattr(parent, field)[bi] = code
             return
         if op == 'delitem':
-            del getattr(parent, field)[bi]
+            with FST.options(**opts):
+                del getattr(parent, field)[bi]
             return
         return parent.insert(code, bi, field, **opts)
     if fk == 'bad_field':
